@@ -691,35 +691,33 @@ def replay_real(case):
         pars = fp.FitParameters()
         fac = pars.neighbor_separation_factor
         try:
-            v = fp._fit_windows(da, est, sc.scalar(width), pars).values
-            for i, c in enumerate(cs):
-                l, r = v[i]
-                if not (lo <= l <= r <= hi):
-                    bad.append(f'window {v[i].tolist()} for estimate {c} (data range [{lo}, {hi}]) is inverted or leaves the data range')
-                elif lo <= c <= hi and not (l <= c <= r):
-                    bad.append(f'window {v[i].tolist()} does not contain its estimate {c}')
-                elif l < r and ((i > 0 and l < cs[i - 1] + (c - cs[i - 1]) * fac - 1e-12 * abs(c)) or (i < npk - 1 and r > cs[i + 1] - (cs[i + 1] - c) * fac + 1e-12 * abs(c))):
-                    bad.append(f'window {v[i].tolist()} of estimate {c} too close to a neighbouring estimate ({cs})')
-        except Exception as e:  # noqa: BLE001
-            bad.append(f'_fit_windows raises {type(e).__name__}: {e}')
-        try:
             import warnings
             with warnings.catch_warnings():
                 warnings.simplefilter('ignore')
                 res = peaks.fit_peaks(da, peak_estimates=est, windows=sc.scalar(width), background='linear', peak='gaussian')
+        except Exception as e:  # noqa: BLE001
+            res = None
+            bad.append(f'fit_peaks raises {type(e).__name__}: {e} for estimates {cs} on data range [{lo}, {hi}]')
+        if res is not None:
             if len(res) != npk:
                 bad.append(f'{len(res)} results for {npk} estimates')
-        except Exception as e:  # noqa: BLE001
-            bad.append(f'fit_peaks raises {type(e).__name__}: {e} for estimates {cs} on data range [{lo}, {hi}]')
+            # the windows that were used are reported with the results (public API)
+            for i, (c, r_) in enumerate(zip(cs, res)):
+                l, r = (float(t) for t in r_.window.values)
+                if not (lo <= l <= r <= hi):
+                    bad.append(f'window {[l, r]} for estimate {c} (data range [{lo}, {hi}]) is inverted or leaves the data range')
+                elif lo <= c <= hi and not (l <= c <= r):
+                    bad.append(f'window {[l, r]} does not contain its estimate {c}')
+                elif l < r and ((i > 0 and l < cs[i - 1] + (c - cs[i - 1]) * fac - 1e-12 * abs(c)) or (i < npk - 1 and r > cs[i + 1] - (cs[i + 1] - c) * fac + 1e-12 * abs(c))):
+                    bad.append(f'window {[l, r]} of estimate {c} too close to a neighbouring estimate ({cs})')
     elif kind in ('windows', 'loop', 'stats', 'remove'):
         da = mkdata(300)
         est = sc.array(dims=['x'], values=[2.0, 5.0, 5.6, 9.9])
-        w = fp._fit_windows(da, est, sc.scalar(2.0), fp.FitParameters())
-        v = w.values
-        for i, c in enumerate(est.values):
-            if not (0.0 <= v[i, 0] <= c <= v[i, 1] <= 10.0):
-                bad.append(f'window {v[i]} for estimate {c}')
         res = peaks.fit_peaks(da, peak_estimates=est, windows=sc.scalar(2.0), background='linear', peak='gaussian')
+        for c, r_ in zip(est.values, res):
+            l, r = (float(t) for t in r_.window.values)
+            if not (0.0 <= l <= c <= r <= 10.0):
+                bad.append(f'window {[l, r]} for estimate {c}')
         if len(res) != 4:
             bad.append('number of results')
         plain = sc.values(da)
